@@ -91,6 +91,12 @@ class Check:
         If an *open* known finding has exactly this signature it is counted as
         KNOWN-FINDING; otherwise a replay file is written and the run fails.
         """
+        if isinstance(signature, dict) and signature.get("kind") == "outcome" and signature.get("class") == "watchdog":
+            # the supervisor's generous wall-clock watchdog killed the driver (machine load, or a legitimately long statement
+            # such as a large cross join at batch size 2): never a verdict. Bounded-time properties are decided on logical
+            # steps (deadlock / divergence) and CPU-time limits, which have their own classes.
+            self.inconc("wall-clock watchdog fired on a driver process (not a verdict)")
+            return False
         f = self.match_known(signature)
         if f is not None:
             self.known_hits[f["id"]] = self.known_hits.get(f["id"], 0) + 1
